@@ -108,4 +108,28 @@ def Pattern.toBytes (p : Pattern) : Bytes :=
     (if p.recursive then (if !p.pfx.isEmpty then cSlash :: dots3 else dots3) else [])
   if !p.tp.isEmpty then base ++ cColon :: p.tp else base
 
+/-- `GetMatchAllTargetPattern()` -/
+def matchAllPattern : Pattern := ⟨[], [], true⟩
+
+/-- `TargetPatternFromLabel` -/
+def patternFromLabel (l : Label) : Pattern := ⟨l.pkg, l.name, false⟩
+
+/-- `ParsePatternsOrMatchAll(currentPackage, patterns)`: every argument is parsed (the first failure is the
+    error); no argument at all means "everything". -/
+def parsePatterns (cur : Bytes) (ss : List Bytes) : Option (List Pattern) :=
+  match ss.mapM (parsePattern cur) with
+  | none => none
+  | some [] => some [matchAllPattern]
+  | some ps => some ps
+
+/-- a label is selected by a pattern set iff one of the patterns matches (`Selector.nodeMatchesPatterns` for a
+    non-empty set, which is what `ParsePatternsOrMatchAll` always returns) -/
+def matchesAny (ps : List Pattern) (t : Label) : Bool := ps.any (·.matches t)
+
+/-- `PatternSetToString` -/
+def patternSetToBytes (ps : List Pattern) : Bytes :=
+  match ps with
+  | [] => []
+  | p :: rest => rest.foldl (fun acc q => acc ++ 32 :: q.toBytes) p.toBytes
+
 end Grog
